@@ -260,9 +260,10 @@ theorem bind_error_is_typeError (s : ArgSpec) (ca : CallArgs) (e : PyErr) (h : b
 Full statement (FALSE): callThrough s ca = bind s ca for every s, ca.
 Missing: (1) `NoPosOnlyKwClash s ca` as above; (2) `shadows s = false`: a keyword-only parameter named `_call_`
 or `_func_` passes `FunctionMaker.make`'s reserved-name check (its `shortsignature` entry is `_call_=_call_`)
-and hides the global of that name in the generated body; (3) `NoCallerNameClash s ca`: the library's own
-`wrapped(func, *args, **kwargs)` takes `func` positional-or-keyword, so a forwarded keyword called `func`
-(keyword-only parameter, or a key of `**kw`) raises "multiple values for argument 'func'".
+and hides the global of that name in the generated body.
+(A third hole — a forwarded keyword called `func` colliding with the first parameter of the library's own
+`wrapped(func, *args, **kwargs)` — was repaired in /repo 85bde09 by making that parameter positional-only; the proof
+below reads the flag `callerFuncPosOnly` from the source, so reverting the repair breaks it.)
 -/
 /-- decidable equality of binding results, so that the counter-examples below are closed by kernel evaluation -/
 instance c16ExceptDecEq {ε α : Type} [DecidableEq ε] [DecidableEq α] : DecidableEq (Except ε α)
@@ -276,14 +277,13 @@ instance (s : ArgSpec) : Decidable (WF s) := by unfold WF; infer_instance
 /-- **A call through the wrapper is the call**: the original function receives arguments that bind exactly as
 the caller's arguments would have bound, or both raise `TypeError`. -/
 theorem call_through_wrapper_partial (s : ArgSpec) (wf : WF s) (ca : CallArgs)
-    (hc : NoPosOnlyKwClash s ca) (hs : shadows s = false) (hf : NoCallerNameClash s ca) :
-    callThrough s ca = bind s ca := by
+    (hc : NoPosOnlyKwClash s ca) (hs : shadows s = false) : callThrough s ca = bind s ca := by
   unfold callThrough
   rw [bind_wrapper_eq s 0 ca hc]
   cases h : bind s ca with
   | error e => rfl
   | ok env =>
-    simp only [hs, no_callerClash h hf, Bool.false_eq_true, if_false]
+    simp only [hs, callerClash_false, Bool.false_eq_true, if_false]
     exact bind_forward_shape wf (bind_ok_shape h)
 
 private def nm (s : String) : Name := s.toList
@@ -328,13 +328,16 @@ theorem kwonly_shadow_counterexample :
 /-- `def q(**kw)` -/
 def specQ : ArgSpec := { specF13 with posonly := [] }
 
-/-- `def q(**kw)`; `q(func=1)`: the original binds `kw={'func': 1}`; through any of the three wrappers the call
-raises `TypeError` — `wrapped(func, *args, **kwargs)` in context_managers.py receives `func` twice (as long as
-that `func` is not positional-only: the flag is read from the source) -/
-theorem keyword_named_func_counterexample : callerFuncPosOnly = false →
-    WF specQ ∧ NoPosOnlyKwClash specQ ⟨[], [(nm "func", 1)]⟩ ∧ shadows specQ = false ∧
-    bind specQ ⟨[], [(nm "func", 1)]⟩ = .ok ⟨[], [], [(nm "func", 1)]⟩ ∧
-    callThrough specQ ⟨[], [(nm "func", 1)]⟩ = .error .typeError := by decide
+/-- `def q3(*, func)` -/
+def specQ3 : ArgSpec := { specF13 with posonly := [], varkw := none, kwonly := [nm "func"] }
+
+/-- regression for the repaired `func` collision (fixed in /repo 85bde09): `def q(**kw)`; `q(func=1)` and
+`def q3(*, func)`; `q3(func=1)` reach the original through the wrapper with exactly the caller's binding -/
+theorem keyword_named_func_regression :
+    callThrough specQ ⟨[], [(nm "func", 1)]⟩ = .ok ⟨[], [], [(nm "func", 1)]⟩ ∧
+    callThrough specQ ⟨[], [(nm "func", 1)]⟩ = bind specQ ⟨[], [(nm "func", 1)]⟩ ∧
+    callThrough specQ3 ⟨[], [(nm "func", 1)]⟩ = .ok ⟨[(nm "func", 1)], [], []⟩ ∧
+    callThrough specQ3 ⟨[], [(nm "func", 1)]⟩ = bind specQ3 ⟨[], [(nm "func", 1)]⟩ := by decide
 
 /-- a positional parameter, `*args`, `**kw` or the function itself named `_call_`/`_func_` is refused at
 decoration time (`NameError`) -/
@@ -348,7 +351,6 @@ private def specAll : ArgSpec :=
   { specF13 with posonly := [nm "a", nm "b"], pos := [nm "c", nm "d"], defaults := [10, 11], varargs := some (nm "args"),
                  kwonly := [nm "k", nm "l"], kwdefaults := [(nm "l", 12)] }
 example : WF specAll ∧ NoPosOnlyKwClash specAll ⟨[1, 2, 3, 4, 5], [(nm "z", 6), (nm "k", 7)]⟩ ∧ shadows specAll = false ∧
-    NoCallerNameClash specAll ⟨[1, 2, 3, 4, 5], [(nm "z", 6), (nm "k", 7)]⟩ ∧
     callThrough specAll ⟨[1, 2, 3, 4, 5], [(nm "z", 6), (nm "k", 7)]⟩
       = .ok ⟨[(nm "a", 1), (nm "b", 2), (nm "c", 3), (nm "d", 4), (nm "k", 7), (nm "l", 12)], [5], [(nm "z", 6)]⟩ := by decide
 example : NoPosOnlyKwClash specAll ⟨[1, 2], [(nm "d", 6), (nm "k", 7)]⟩ ∧
